@@ -766,6 +766,122 @@ def nil_sequence_scalars(r, m, v):
             nil_sequence_scalars(r, m, v["fields"].get(f["name"]))
 
 
+def class_heirs(m, name):
+    heirs, changed = {name}, True
+    while changed:
+        changed = False
+        for k in m["classes"]:
+            if k.get("base") in heirs and k["name"] not in heirs:
+                heirs.add(k["name"])
+                changed = True
+    return heirs
+
+
+# primitive choice types of a compound field whose Python classes / lexical spaces overlap: bool is a subclass of int,
+# every int text is a float / Decimal text, everything is a str text.  The serializer must pick the choice by the EXACT
+# type of the value (XmlVar.find_primitive_choice: `tp in element.types`), whatever the declaration order.
+OVERLAPPING_PRIMS = ["int", "bool", "float", "Decimal", "str"]
+
+
+def add_overlapping_choices(r, m, insts):
+    """genmodels draws the 2-3 choices of a compound (Elements) field from five unrelated-looking primitives and classes, so
+    two choices whose types are related by subclassing / convertibility in the critical ORDER (int before bool, float
+    before int, str first ...) are rare: give one class a compound field with 2-5 of the overlapping primitives in a
+    random order and put values of every declared choice type into it (seeded breakage C01-r5m2)"""
+    cands = [c for c in m["classes"] if not c.get("twin") and not c.get("simple")
+             and not any(f["kind"] == "Text" or f.get("mixed") for f in G.all_fields(m, c))]
+    if not cands:
+        return False
+    c = r.choice(cands)
+    tps = r.sample(OVERLAPPING_PRIMS, r.choice([2, 3, 3, 4, 5]))
+    name = "pc%d" % len(c["fields"])
+    lst = r.random() < 0.7
+    f = {"name": name, "kind": "Elements", "list": lst,
+         "choices": [{"name": f"{name}_{k}", "type": ("prim", tp)} for k, tp in enumerate(tps)]}
+    c["fields"].append(f)
+    heirs = class_heirs(m, c["name"])
+
+    def one(tp):
+        p = G.gen_prim(r, m, ("prim", tp))
+        if tp == "str":
+            p["v"] = "s-" + p["v"].strip()      # a text no other choice type accepts (as genmodels does)
+        return p
+
+    def walk(x):
+        if isinstance(x, list):
+            for y in x:
+                walk(y)
+        elif isinstance(x, dict) and "__any__" in x:
+            walk(x["__any__"]["children"])
+        elif isinstance(x, dict) and "__cls__" in x:
+            for v in list(x["fields"].values()):
+                walk(v)
+            if x["__cls__"] in heirs and name not in x["fields"]:
+                if lst:
+                    vals = [one(tp) for tp in tps if r.random() < 0.8] + [one(r.choice(tps)) for _ in range(r.choice([0, 1, 2]))]
+                    r.shuffle(vals)
+                    x["fields"][name] = vals
+                else:
+                    x["fields"][name] = one(r.choice(tps)) if r.random() < 0.85 else None
+    for inst in insts:
+        walk(inst)
+    return True
+
+
+def nillable_sequence_lists(r, m):
+    """genmodels marks 15 % of the element fields nillable and builds sequence groups independently: a nillable LIST inside a
+    sequence group (the `value is not None or var.nillable` test of the rolling loop of next_value, list branch) is rare.
+    Mark some plain list members of sequence groups nillable."""
+    hit = False
+    for c in m["classes"]:
+        for f in c["fields"]:
+            if f["kind"] == "Element" and f.get("sequence") is not None and f.get("list") and not f.get("tokens") \
+                    and not f.get("wrapper") and not f.get("nillable") and r.random() < 0.4:
+                f["nillable"] = True
+                hit = True
+    return hit
+
+
+def nil_list_items(r, m, v):
+    """None items of nillable list fields: every item is written on its own, None as <f xsi:nil="true"/>, by convert_list
+    (plain fields) or by the rolling loop of next_value (members of a sequence group); genmodels never puts None into a
+    list (seeded breakage C01-r5m1).  Returns the number of None items inserted."""
+    if isinstance(v, list):
+        return sum(nil_list_items(r, m, x) for x in v)
+    if not isinstance(v, dict):
+        return 0
+    if "__any__" in v:
+        return nil_list_items(r, m, v["__any__"]["children"])
+    if "fields" not in v:
+        return 0
+    n = 0
+    c = G.find_class(m, v["__cls__"])
+    for f in G.all_fields(m, c):
+        x = v["fields"].get(f["name"])
+        n += nil_list_items(r, m, x)
+        if f["kind"] == "Element" and f.get("nillable") and f.get("list") and not f.get("tokens") and isinstance(x, list) \
+                and r.random() < 0.6:
+            for _ in range(r.choice([1, 1, 2])):
+                x.insert(r.randint(0, len(x)), None)
+                n += 1
+    return n
+
+
+def none_items_at(inst, path):
+    """number of None items of the list the diff path ends at (0 if the path does not end at a list of the recipe)"""
+    cur = inst
+    for name, idx in re.findall(r"\.(\w+)|\[(\d+)\]", path):
+        if name:
+            if not (isinstance(cur, dict) and "fields" in cur):
+                return 0
+            cur = cur["fields"].get(name)
+        else:
+            if not (isinstance(cur, list) and int(idx) < len(cur)):
+                return 0
+            cur = cur[int(idx)]
+    return sum(1 for x in cur if x is None) if isinstance(cur, list) else 0
+
+
 def pad_any_text(r, v):
     """generic elements without children keep their text as it is: give some of them surrounding white space
     (genmodels only writes trimmed texts there)"""
@@ -966,6 +1082,10 @@ def classify(m, inst, case, res, vres):
         return "sequence-tokens-split"             # C01-F7: next_value yields the tokens one by one
     if xsi_dropped_fields(m, inst) and ("exc" in res or "<type " in path or "<keys>" in path):
         return "xsi-type-dropped"                  # C01-F8: the subclass's type name equals the element name
+    if res.get("exc") == "ParserError" and "Failed to parse union node" in res.get("msg", ""):
+        node = res["msg"].rsplit(":", 1)[-1].strip().rsplit("}", 1)[-1]
+        if node in nillable_union_nones(m, inst):
+            return "nillable-union-none"           # C01-F10: UnionNode.bind has no case for xsi:nil
     if "exc" in res:
         return "exception-" + res["exc"]
     if path.endswith("<keys>") and ("XMLSchema-instance}" in res.get("back", "") or xsi_marked_owner(m, inst, path)):
@@ -984,10 +1104,39 @@ def classify(m, inst, case, res, vres):
             return "nil-conflation"      # the owning element itself carries xsi:nil (nillable class)
         if f["kind"] == "Element":
             target_nillable = bool(tp and tp[0] == "class" and G.find_class(m, tp[1])["meta"].get("nillable"))
+            if (f.get("nillable") or target_nillable) and "<len " in path and f is along[-1][1] and none_items_at(inst, path):
+                # a None ITEM of a nillable list was dropped or multiplied: every item is written on its own, None as an
+                # xsi:nil element, and read back as None - not the conflation of empty values with nil (C01-F1)
+                return "nillable-list-none-item"
             if (f.get("nillable") or target_nillable) and ("NoneType" in path or "<len " in path):
                 return "nil-conflation"     # one side is None: xsi:nil written for / read as an empty value
     c, f = along[-1]
     return "other-" + f["kind"]
+
+
+def nillable_union_nones(m, inst):
+    """local element names of the nillable element fields of a union-of-classes type that hold None (scalar) or a None
+    item (list) somewhere in the instance: written <u xsi:nil="true"/>, which UnionNode.bind cannot read (finding C01-F10)"""
+    names = set()
+
+    def walk(x):
+        if isinstance(x, list):
+            for y in x:
+                walk(y)
+        elif isinstance(x, dict) and "__cls__" in x:
+            try:
+                fs = G.all_fields(m, G.find_class(m, x["__cls__"]))
+            except Exception:  # noqa
+                return
+            for f in fs:
+                v = x["fields"].get(f["name"])
+                tp = f.get("type")
+                if f["kind"] == "Element" and f.get("nillable") and tp and tp[0] == "union" \
+                        and (v is None or (isinstance(v, list) and any(y is None for y in v))):
+                    names.add(f.get("xml_name") or f["name"])
+                walk(v)
+    walk(inst)
+    return names
 
 
 def prefixed_any_values(v):
@@ -1057,6 +1206,7 @@ def run(ck: Check):
     stats = {}
     check_witness(ck)
     n_models = ck.n(200, 3000)
+    n_guard = ck.n(70, 900)
     jobs, metas = [], []
     for k in range(n_models):
         slices = r.choice([("F1",), ("F1",), ("F1",), ("F1", "F2"), ("F1", "F2", "F3"), ("F1", "F4"), ("F1", "F2", "F3", "F4")])
@@ -1070,6 +1220,20 @@ def run(ck: Check):
             group_scalar_wildcards(r, m, inst)
             pad_any_text(r, inst)
             nil_sequence_scalars(r2, m, inst)
+        if k >= n_guard:
+            # families that are outside the guards of the theorems altogether (compound fields, None items of nillable
+            # lists): only in the models the guard layer does not use, so that its share of inside cases stays what it was
+            r3 = random.Random(f"round5-{ck.seed}-{k}")   # own stream again
+            if r3.random() < 0.3 and add_overlapping_choices(r3, m, insts):
+                stats["models_with_overlapping_primitive_choices"] = stats.get("models_with_overlapping_primitive_choices", 0) + 1
+            if r3.random() < 0.5:
+                nillable_sequence_lists(r3, m)
+            nn = sum(nil_list_items(r3, m, inst) for inst in insts)
+            if nn:
+                stats["models_with_none_items_in_nillable_lists"] = stats.get("models_with_none_items_in_nillable_lists", 0) + 1
+                if any(f.get("nillable") and f.get("list") and f.get("sequence") is not None for c in m["classes"] for f in c["fields"]):
+                    stats["models_with_none_items_and_nillable_list_in_sequence_group"] = \
+                        stats.get("models_with_none_items_and_nillable_list_in_sequence_group", 0) + 1
         cases = []
         for i in range(len(insts)):
             for _ in range(3):
@@ -1082,7 +1246,6 @@ def run(ck: Check):
     jobs = cjobs + jobs
     metas = [model_of_source(j["src"]) for j in cjobs] + metas
     # ---- layer 2: guards and correspondence, judged in Coq, on a subset (one case per instance)
-    n_guard = ck.n(70, 900)
     gjobs = []
     for job in jobs[len(cjobs):len(cjobs) + n_guard]:
         seen, cs = set(), []
